@@ -296,6 +296,9 @@ func TestVX_C10(t *testing.T) {
 		for _, w := range []int{1, 2} {
 			for _, r0 := range []int{0, 1200} {
 				cmdCases = append(cmdCases, vxC10CmdCase{Theta: th, R0: r0, Window: w})
+				if th == 4 && w == 1 {
+					cmdCases = append(cmdCases, vxC10CmdCase{Theta: th, R0: r0, Window: w, Decimals: true})
+				}
 				if th == 4 {
 					cmdCases = append(cmdCases, vxC10CmdCase{Theta: th, R0: r0, Window: w, GetPwmFails: true}, vxC10CmdCase{Theta: th, R0: r0, Window: w, GetPwmNoise: true})
 				}
